@@ -1,12 +1,13 @@
 #!/usr/bin/env python3
-"""Round 2: copy verified seeded changes from /tmp/mut2/<Cxx>/ into /verif/seeded/<Cxx>-<n+2>/ with meta.json.
+"""Round r (argv[1], default 2): copy verified seeded changes from /tmp/mut<r>/<Cxx>/ into /verif/seeded/<Cxx>-<n+2(r-1)>/ with meta.json.
 Reads /tmp/mutres2.log (checks as they were when the change arrived), /tmp/mutres2_final.log (checks now),
 /tmp/verify2-*.log (my own confirmation) and tools/seeded_meta2.json + tools/seeded_notes2.json."""
 import json, os, re, shutil, subprocess, sys
 
 HERE = os.path.dirname(os.path.dirname(os.path.abspath(__file__)))
-meta_all = json.load(open(os.path.join(HERE, "tools", "seeded_meta2.json")))
-notes = json.load(open(os.path.join(HERE, "tools", "seeded_notes2.json")))
+R = int(sys.argv[1]) if len(sys.argv) > 1 else 2
+meta_all = json.load(open(os.path.join(HERE, "tools", f"seeded_meta{R}.json")))
+notes = json.load(open(os.path.join(HERE, "tools", f"seeded_notes{R}.json")))
 head = subprocess.run(["git", "-C", "/repo", "rev-parse", "--short", "HEAD"], capture_output=True, text=True).stdout.strip()
 
 
@@ -14,19 +15,19 @@ def lines(path):
     return [l.rstrip("\n") for l in open(path)] if os.path.exists(path) else []
 
 
-first_log = lines("/tmp/mutres2.log") + lines("/tmp/mutres2b.log")
-final_log = lines("/tmp/mutres2_final.log")
+first_log = (lines("/tmp/mutres2.log") + lines("/tmp/mutres2b.log")) if R == 2 else lines(f"/tmp/mutres{R}_first.log")
+final_log = lines(f"/tmp/mutres{R}_final.log")
 bad = []
 for c in [f"C{i:02d}" for i in range(1, 21)]:
     for n in (1, 2):
-        sid = f"{c}-{n + 2}"
-        src = f"/tmp/mut2/{c}"
+        sid = f"{c}-{n + 2 * (R - 1)}"
+        src = f"/tmp/mut{R}/{c}"
         dst = os.path.join(HERE, "seeded", sid)
         os.makedirs(dst, exist_ok=True)
         shutil.copy(f"{src}/patch{n}.diff", f"{dst}/patch.diff")
         shutil.copy(f"{src}/demo{n}.py", f"{dst}/demo.py")
         ver = None
-        for f in (f"/tmp/verify2-{c}.log", f"/tmp/verify2-{c}b.log"):
+        for f in (f"/tmp/verify{R}-{c}.log", f"/tmp/verify{R}-{c}b.log"):
             for line in lines(f):
                 if line.startswith(f"{c}/{n} ") and "demo_clean_rc=0" in line and "demo_patched_rc=1" in line and "suite_rc=0" in line:
                     ver = line.strip()
@@ -43,14 +44,14 @@ for c in [f"C{i:02d}" for i in range(1, 21)]:
                   "missed by the check of its own property; caught by " + ", ".join(caught_by))
         meta = {
             "property": c,
-            "round": 2,
+            "round": R,
             "change": meta_all[sid]["summary"],
             "needs_to_manifest": meta_all[sid]["needs"],
-            "origin": "independent sub-agent given only the property text, one-line descriptions of the two round-1 "
+            "origin": "independent sub-agent given only the property text, one-line descriptions of the earlier "
                       "changes to avoid, and a scratch worktree of /repo (nothing from /verif)",
             "applies_to_repo_commit": head,
             "confirmed_by_me": {
-                "how": "tools/verify_seeded.sh (MUT_DIR=/tmp/mut2) in a scratch worktree of /repo HEAD: demo without patch, "
+                "how": "tools/verify_seeded.sh (MUT_DIR=/tmp/mut<round>) in a scratch worktree of /repo HEAD: demo without patch, "
                        "demo with patch, unedited pytest suite with patch",
                 "result": ver,
             },
